@@ -11,6 +11,8 @@ never fires in any reachable state, for every job, cluster, admissible heuristic
 -/
 import EkwVerif.Lemmas.CtrlN
 import EkwVerif.Lemmas.CtrlFinal
+import EkwVerif.Lemmas.CtrlWorker
+import EkwVerif.Lemmas.SchedTermA
 
 namespace EkwVerif.Ctrl
 
@@ -80,6 +82,164 @@ theorem c02_inputs_published (f : Sem) (j : Job) (cl : Cluster) (wf : WF j cl) (
   | false => rfl
   | true => have := (invN_reachable f j cl wf x hr).unannounced ds hh; rw [ha] at this; cases this
 
+/-! ### "not already busy" at full strength (audit C02 #3) -/
+
+/-- **A worker has at most one task in flight** (dispatched, completion not yet notified): queued, running or run. -/
+theorem c02_worker_single_flight (f : Sem) (j : Job) (cl : Cluster) (hw : cl.ids.Nodup) (s : Sys)
+    (hr : Reachable f j cl s) : ∀ w t t', s.inFlight w t → s.inFlight w t' → t = t' :=
+  invW_reachable f j cl hw s hr
+
+/-- **An idle worker is free — started bodies included** (non-atomic task bodies, Model/CtrlN.lean). A task is dispatched
+only to a worker in `idle_workers` (`assignOne`). Such a worker has no task queued AND no body running: every running
+body (started, some output not yet published — it is no longer in `queued`) is in flight on exactly one worker, and
+that worker is not idle. -/
+theorem c02_idle_means_free_running (f : Sem) (j : Job) (cl : Cluster) (wf : WF j cl) (x : SysN) (hr : ReachableN f j cl x)
+    (w : Worker) (hi : w ∈ x.sys.ctl.idle) :
+    (∀ t, (w, t) ∉ x.sys.env.queued) ∧
+    (∀ t, x.running j t = true → ∃ w', w' ≠ w ∧ x.sys.inFlight w' t ∧ ∀ w'', x.sys.inFlight w'' t → w'' = w') := by
+  have hb := reachableN_sys f j cl x hr
+  have h1 := inv1_reachable f j cl wf.workersNodup x.sys hb
+  refine ⟨fun t hq => h1.idle_free w hi t (h1.queued_flight w t hq), ?_⟩
+  intro t hrun
+  obtain ⟨w', hf, huniq, _⟩ := running_in_flight f j cl wf x hr t hrun
+  refine ⟨w', ?_, hf, huniq⟩
+  intro he; subst he
+  exact h1.idle_free _ hi t hf
+
+/-- **No second body on a worker.** When the body of a queued task starts on worker `w`, no other body that was started
+on `w` (a running task in flight on `w`) is still running: the model never needs two bodies on one worker process. -/
+theorem c02_no_second_body (f : Sem) (j : Job) (cl : Cluster) (wf : WF j cl) (x x' : SysN) (hr : ReachableN f j cl x)
+    (w : Worker) (t : Task) (hs : stepN f j cl x (.start w t) = some x') :
+    ∀ t', x.running j t' = true → ¬ x.sys.inFlight w t' := by
+  have hb := reachableN_sys f j cl x hr
+  have h1 := inv1_reachable f j cl wf.workersNodup x.sys hb
+  have hW := invW_reachable f j cl wf.workersNodup x.sys hb
+  intro t' hrun hf'
+  -- `t` is queued on `w`, hence in flight on `w`; so is the running `t'`: the same task — but a running task is not queued
+  simp only [stepN] at hs
+  split at hs; · cases hs
+  cases he : step f j cl x.sys (.env (.run w t)) with
+  | none => simp [he] at hs
+  | some s' =>
+    obtain ⟨hq, _, _⟩ := envRun_inv f j cl _ _ _ _ he
+    have hft := h1.queued_flight w t hq
+    have : t' = t := hW w t' t hf' hft
+    subst this
+    obtain ⟨_, _, _, hnq⟩ := running_in_flight f j cl wf x hr t' hrun
+    exact hnq w hq
+
+/-! ### the GPU / free-worker clauses from the REAL mechanism (audit C02 #2)
+
+`assignOne` validates the oracle's choice (worker idle, task computable, GPU flag); an inadmissible choice is "no such
+behaviour". In the extended system (`Model/Sched.lean`) the pair comes out of the modelled control flow of `assign()`:
+`assign_within_component` partitions the computable tasks and the given idle workers by GPU flag (`awcEnter`), runs
+`_assignment_heuristic` on (gpu tasks, gpu workers), then on (cpu tasks, cpu workers + gpu workers still idle). The
+theorems below show that every pair that control flow can yield is admissible — so the validation in `assignOne` never
+rejects anything the real control flow produces, and the C02 clauses hold BECAUSE of the partition. -/
+
+/-- **Every (task, worker) pair of the current `_assignment_heuristic` call is admissible**: the worker exists, is idle,
+has nothing queued or in flight; the task is computable and has never been dispatched; a GPU task is only ever paired
+with a GPU worker. -/
+theorem c02_assign_admissible (f : Sem) (j : Job) (cl : Cluster) (cm : Comps) (wf : WF j cl) (wfc : WFC j cm) (x : SysX)
+    (hr : ReachableX f j cl cm x) {c : Nat} {cls : Cls} {tasks : List Task} {workers : List Worker} {ph : HPhase}
+    {cpuT : List Task} {cpuW : List Worker} {k : Bool}
+    (hst : x.sch.stage = .inH c cls tasks workers ph cpuT cpuW k) (t : Task) (w : Worker) (ht : t ∈ tasks) (hw : w ∈ workers) :
+    w ∈ cl.ids ∧ w ∈ x.sys.ctl.idle ∧ (∀ t', (w, t') ∉ x.sys.env.queued) ∧ (∀ t', ¬ x.sys.inFlight w t') ∧
+    t ∈ x.sys.ctl.computable ∧ x.sys.env.dispatchedE t = 0 ∧ (j.gpu t = true → cl.hasGpu w = true) := by
+  have hX := invX_reachable f j cl cm wf wfc x hr
+  have hE := sT_invE_reachable f j cl cm x hr
+  have h1 := hX.hA.h1
+  have hph : x.sys.phase = .assigning := by
+    cases hp : x.sys.phase with
+    | assigning => rfl
+    | _ => rcases hX.hS.stage_phase (by rw [hp]; simp) with h | h <;> (rw [hst] at h; cases h)
+  have hok := hX.hS.stage_ok
+  simp only [StageOk, hst] at hok
+  obtain ⟨okW, okT, okG⟩ := hok
+  obtain ⟨_, _, e3, _⟩ := (stageE_inH hst).mp (hE.asg hph)
+  have hwi := (okW w (List.mem_append.mpr (Or.inl hw))).1
+  have htc := (okT t (List.mem_append.mpr (Or.inl ht))).1
+  refine ⟨h1.idle_known w hwi, hwi, fun t' hq => h1.idle_free w hwi t' (h1.queued_flight w t' hq), h1.idle_free w hwi,
+    htc, by rw [h1.disp_eq]; exact h1.once.comp t htc, ?_⟩
+  intro hgt
+  cases cls with
+  | gpu => exact okG rfl w hw
+  | cpu => rw [e3 rfl t ht] at hgt; cases hgt
+
+/-- **The validation never rejects what the control flow yields.** For a pair of the current heuristic call, the only
+oracle rejections `assignOne` can still raise concern the transmit-source argument — never "worker not idle", "task not
+computable" or "gpu task on cpu worker" —, and with the sources the scan of `build_assignment` finds (`chooseCands`)
+there is none at all. -/
+theorem c02_filter_never_rejects (f : Sem) (j : Job) (cl : Cluster) (cm : Comps) (wf : WF j cl) (wfc : WFC j cm) (x : SysX)
+    (hr : ReachableX f j cl cm x) {c : Nat} {cls : Cls} {tasks : List Task} {workers : List Worker} {ph : HPhase}
+    {cpuT : List Task} {cpuW : List Worker} {k : Bool}
+    (hst : x.sch.stage = .inH c cls tasks workers ph cpuT cpuW k) (a : Asg) (ht : a.task ∈ tasks) (hw : a.worker ∈ workers) :
+    (∀ msg, assignOne j cl x.sys.ctl a = .error (.oracle msg) →
+      msg ≠ "worker not idle" ∧ msg ≠ "task not computable" ∧ msg ≠ "gpu task on cpu worker") ∧
+    (∀ msg, assignOne j cl x.sys.ctl ⟨a.worker, a.task, chooseCands cl.hosts x.sys.ctl (j.inputs a.task)⟩ ≠ .error (.oracle msg)) := by
+  obtain ⟨_, hwi, _, _, htc, _, hg⟩ := c02_assign_admissible f j cl cm wf wfc x hr hst a.task a.worker ht hw
+  refine ⟨?_, sT_assign_exists j cl x.sys.ctl a.worker a.task hwi htc hg⟩
+  intro msg hm
+  unfold assignOne at hm
+  have h1 : x.sys.ctl.idle.contains a.worker = true := by simpa using hwi
+  have h2 : x.sys.ctl.computable.contains a.task = true := by simpa using htc
+  have h3 : (j.gpu a.task && !(cl.hasGpu a.worker)) = false := by
+    cases hgt : j.gpu a.task with
+    | false => simp
+    | true => simp [hg hgt]
+  simp only [h1, h2, h3, Bool.not_true, Bool.false_eq_true, if_false] at hm
+  split at hm
+  · rename_i e he
+    simp only [Except.error.injEq] at hm
+    subst hm
+    -- the oracle errors of `build_assignment`'s loop are the two about the transmit source
+    have key : ∀ (l : List Ds) (c0 : Ctl) (m : String), buildPrep cl a.worker a.cands c0 l = .error (.oracle m) →
+        m = "transmit source is not `available`" ∨ m = "no transmit source given" := by
+      intro l
+      induction l with
+      | nil => intro c0 m h0; simp [buildPrep] at h0
+      | cons y l ih =>
+        intro c0 m h0
+        unfold buildPrep at h0
+        split at h0
+        · exact ih _ _ h0
+        · split at h0
+          · split at h0
+            · rename_i e3 h3; simp only [Except.error.injEq] at h0; subst h0; exact ih _ _ h3
+            · cases h0
+          · split at h0
+            · split at h0
+              · dsimp only at h0
+                split at h0
+                · rename_i e3 h3; simp only [Except.error.injEq] at h0; subst h0; exact ih _ _ h3
+                · cases h0
+              · simp only [Except.error.injEq, Err.oracle.injEq] at h0; exact Or.inl h0.symm
+            · split at h0
+              · simp only [Except.error.injEq, Err.oracle.injEq] at h0; exact Or.inr h0.symm
+              · simp at h0
+    rcases key _ _ _ he with rfl | rfl <;> simp
+  · cases hm
+
+/-- **Every dispatch of the extended system goes to an existing, free worker that fits the GPU requirement** — derived
+from the stage of `assign()`'s control flow, not from the validation of the oracle value. -/
+theorem c02_dispatch_by_control_flow (f : Sem) (j : Job) (cl : Cluster) (cm : Comps) (wf : WF j cl) (wfc : WFC j cm)
+    (x x' : SysX) (hr : ReachableX f j cl cm x) (a : Asg) (hs : stepX f j cl cm x (.base (.assign a)) = some x') :
+    a.worker ∈ cl.ids ∧ a.worker ∈ x.sys.ctl.idle ∧ (∀ t', (a.worker, t') ∉ x.sys.env.queued) ∧
+    (∀ t', ¬ x.sys.inFlight a.worker t') ∧ x.sys.env.dispatchedE a.task = 0 ∧
+    (j.gpu a.task = true → cl.hasGpu a.worker = true) := by
+  simp only [stepX] at hs
+  split at hs; · cases hs
+  split at hs
+  · rename_i c cls tasks workers phase cpuT cpuW k hstage
+    split at hs; · cases hs
+    rename_i hmem
+    simp only [Bool.or_eq_true, Bool.not_eq_true', not_or, Bool.not_eq_false] at hmem
+    have ht : a.task ∈ tasks := by simpa using hmem.1
+    have hw : a.worker ∈ workers := by simpa using hmem.2
+    obtain ⟨g1, g2, g3, g4, _, g6, g7⟩ := c02_assign_admissible f j cl cm wf wfc x hr hstage a.task a.worker ht hw
+    exact ⟨g1, g2, g3, g4, g6, g7⟩
+  · cases hs
+
 /-! non-vacuity: a two-task chain on one worker reaches a state where both were dispatched once -/
 section
 def exJob : Job := { tasks := [{ nOut := 1, gpu := false, inputs := [] }, { nOut := 1, gpu := false, inputs := [⟨0, 0⟩] }], ext := [⟨1, 0⟩] }
@@ -91,6 +251,37 @@ def exSteps : List Step :=
    .enter, .assign ⟨⟨0, 0⟩, 1, []⟩, .endAssign, .plan1, .endPlan, .endFlushF, .endFlush]
 example : ((runSteps exSem exJob exCl (Sys.init exJob exCl) exSteps).map
     (fun s => (s.env.dispatchedE 0, s.env.dispatchedE 1, s.env.viol, s.err))) = some (1, 1, [], none) := by
+  decide
+end
+
+/-! non-vacuity of the GPU partition: a CPU task `t0` and a GPU task `t1`, a CPU worker and a GPU worker on one host. After
+`assign_within_component` has been entered the GPU call holds exactly (gpu tasks, gpu workers) and keeps (cpu tasks, cpu
+workers) for the second call; assigning the GPU task to the CPU worker is not a step of the system -/
+section
+def exJobP : Job := { tasks := [{ nOut := 1, gpu := false, inputs := [] }, { nOut := 1, gpu := true, inputs := [] }], ext := [] }
+def exClP : Cluster := { workers := [(⟨0, 0⟩, false), (⟨0, 1⟩, true)] }
+def exCmP1 : Comps := { compOf := fun _ => 0, n := 1 }
+def stageView (x : SysX) : Option (Cls × List Task × List Worker) :=
+  match x.sch.stage with
+  | .inH _ cls ts ws _ _ _ _ => some (cls, ts, ws)
+  | _ => none
+def stageView2 (x : SysX) : Option (List Task × List Worker) :=
+  match x.sch.stage with
+  | .inH _ _ _ _ _ cpuT cpuW _ => some (cpuT, cpuW)
+  | _ => none
+def exStepsP : List StepX := [.base .enter, .beginStepII, .migrate 0, .awcEnter]
+example : ((runStepsX exSem exJobP exClP exCmP1 (SysX.init exJobP exClP exCmP1) exStepsP).bind stageView) =
+    some (.gpu, [1], [⟨0, 1⟩]) := by
+  decide
+example : ((runStepsX exSem exJobP exClP exCmP1 (SysX.init exJobP exClP exCmP1) exStepsP).bind stageView2) =
+    some ([0], [⟨0, 0⟩]) := by
+  decide
+example : (runStepsX exSem exJobP exClP exCmP1 (SysX.init exJobP exClP exCmP1)
+    (exStepsP ++ [.hPhase2, .base (.assign ⟨⟨0, 0⟩, 1, []⟩)])).isNone = true := by
+  decide
+example : ((runStepsX exSem exJobP exClP exCmP1 (SysX.init exJobP exClP exCmP1)
+    (exStepsP ++ [.hPhase2, .base (.assign ⟨⟨0, 1⟩, 1, []⟩), .hEnd, .hPhase2, .base (.assign ⟨⟨0, 0⟩, 0, []⟩)])).map
+    (fun x => (x.sys.env.dispatchedE 0, x.sys.env.dispatchedE 1, x.sys.env.viol, x.sys.ctl.idle))) = some (1, 1, [], []) := by
   decide
 end
 
